@@ -1,6 +1,6 @@
 """Shared driver for the checks that judge solve() tables row by row (C01, C02, C04, C06)."""
 
-from .. import harness as H, model as M, spec as S
+from .. import gen as G, harness as H, model as M, spec as S
 
 
 def observe(ctx, spec):
@@ -29,18 +29,18 @@ def solve_and_judge(ctx, case, accept, skip_if_polarity_lost=True, solve_kw=None
 
     if "_orig_spec" not in case:
         case["_orig_spec"] = copy.deepcopy(case["spec"])
-    spec, sysobj = build_with_history(ctx, copy.deepcopy(case["_orig_spec"]), case.get("history", "fresh"), case.get("hseed", 0))
-    case["spec"] = spec  # the structure the judged table must correspond to
     tol = M.Tol(case["tol"], case["tol"])
     kw = dict(vtol=case["tol"], itol=case["tol"], ta=case.get("ta", 25.0))
     kw.update(solve_kw or {})
     kw.update(case.get("kw") or {})
-    phases = list((spec.get("phases") or {}).keys())
+    phases = list((case["_orig_spec"].get("phases") or {}).keys())
     if kw.get("phase") == "<some>":
         if phases:
             kw["phase"] = phases[case.get("phase_pick", 0) % len(phases)]
         else:
             kw.pop("phase")
+    spec, sysobj = build_with_history(ctx, copy.deepcopy(case["_orig_spec"]), case.get("history", "fresh"), case.get("hseed", 0), kw=kw)
+    case["spec"] = spec  # the structure the judged table must correspond to
     # earlier analyses on the SAME object (whatever they leave behind must not influence the judged call)
     with H.quiet():
         for pre in case.get("pre") or []:
@@ -134,10 +134,10 @@ def repo_tests_under_monitor(ctx, accept):
 
 
 HISTORIES = ["fresh", "fresh", "fresh", "solve_then_move_leaf", "solve_then_phase_conf", "solve_then_change_comp", "index_gaps",
-             "identity_change_comp"]
+             "identity_change_comp", "solve_then_retune"]
 
 
-def build_with_history(ctx, spec, mode, hseed):
+def build_with_history(ctx, spec, mode, hseed, kw=None, prefer=None):
     """Build the real System for `spec`, optionally through a history in which the system is ANALYSED, then
     edited / re-configured, and only then judged.  Returns (effective spec, System)."""
     import copy
@@ -158,6 +158,8 @@ def build_with_history(ctx, spec, mode, hseed):
     def analyse(so):
         with H.quiet():
             H.call(getattr(so, rng.choice(["solve", "solve", "phases", "rail_rep", "params"])))
+            if prefer:  # the report the calling check is about to judge
+                H.call(getattr(so, prefer))
 
     if mode == "solve_then_move_leaf":
         leaves = [c for c in spec["comps"] if c["kind"] in S.LOADS]
@@ -202,6 +204,33 @@ def build_with_history(ctx, spec, mode, hseed):
                 em[c["name"]]["phase"] = None
             ctx.count("history", mode)
             return eff, so
+    if mode == "solve_then_retune":
+        # the system is first built with other THERMAL resistances / loss flags (same electrical operating point),
+        # solved with the very arguments of the judged call, and then re-tuned in place to the real values
+        detour = copy.deepcopy(spec)
+        tuned = []
+        cands = [c for c in detour["comps"] if c["kind"] != "PMux"]
+        rng.shuffle(cands)
+        for c in cands[: rng.randint(1, 4)]:
+            a = c["args"]
+            if c["kind"] in S.LOADS and rng.random() < 0.5:
+                a["loss"] = not a.get("loss", False)
+            elif c["kind"] != "Source":
+                a["rt"] = G.sig(abs(a.get("rt", 0.0)) * 4.0 + 7.0)
+            else:
+                continue
+            tuned.append(c["name"])
+        if tuned:
+            so = fresh(detour)
+            with H.quiet():
+                H.solve(so, **(kw or {}))
+            for n in tuned:
+                c = cm[n]
+                so.change_comp(n, comp=S.make_comp(ns, c), group=c.get("group", ""), rail=c.get("rail", ""))
+                if c.get("phase") is not None:
+                    so.set_comp_phases(n, copy.deepcopy(c["phase"]))
+            ctx.count("history", mode)
+            return spec, so
     if mode == "identity_change_comp":
         # some components are replaced by identical ones: same final structure, but the name / rail / group
         # registries (dicts in insertion order) are no longer in node-index order
